@@ -18,6 +18,7 @@ import (
 	"io"
 	"regexp"
 	"sync"
+	"syscall"
 	"testing"
 	"time"
 	"unsafe"
@@ -212,24 +213,43 @@ func c19PanicText(pc vlib.Caught) string {
 	return "panic: " + v + "\n" + pc.Stack
 }
 
-// c19Exec runs one driver call on its own goroutine under CatchFault. A call
-// that has not returned after c19Deadline is stuck in a runaway loop (normal
-// calls take microseconds): the stuck goroutine cannot be stopped and keeps
-// writing to the shared buffer, so the process reports the case and exits.
-const c19Deadline = 3 * time.Second
+// c19Exec runs one driver call on its own goroutine under CatchFault. Normal
+// calls take microseconds; a call during which the process has burnt more than
+// c19CPULimit of CPU time is stuck in a runaway loop (CPU time, not wall time,
+// so that a starved machine cannot trip it). The stuck goroutine cannot be
+// stopped and keeps writing to the shared buffer, so the process reports the
+// case (unshrunk) and exits.
+const c19CPULimit = 2500 * time.Millisecond
+
+func c19CPUTime() time.Duration {
+	var ru syscall.Rusage
+	if err := syscall.Getrusage(syscall.RUSAGE_SELF, &ru); err != nil {
+		return 0
+	}
+	return time.Duration(ru.Utime.Nano() + ru.Stime.Nano())
+}
 
 func c19Exec(c interface{}, when string, f func()) vlib.Caught {
 	done := make(chan vlib.Caught, 1)
 	go func() { done <- vlib.CatchFault(f) }()
-	tm := time.NewTimer(c19Deadline)
-	defer tm.Stop()
 	select {
-	case pc := <-done:
+	case pc := <-done: // the common case: no timer needed
 		return pc
-	case <-tm.C:
-		vlib.Die("C19", c, vlib.Failf("%s: the call did not return within %v (runaway loop over rows/columns that are not in the grid)", when, c19Deadline))
+	case <-time.After(50 * time.Millisecond):
 	}
-	return vlib.Caught{}
+	start := c19CPUTime()
+	tick := time.NewTicker(500 * time.Millisecond)
+	defer tick.Stop()
+	for {
+		select {
+		case pc := <-done:
+			return pc
+		case <-tick.C:
+			if c19CPUTime()-start > c19CPULimit {
+				vlib.Die("C19", c, vlib.Failf("%s: the call is still running after %v of CPU time (runaway loop over rows/columns that are not in the grid)", when, c19CPULimit))
+			}
+		}
+	}
 }
 
 type c19Discard struct{}
@@ -304,30 +324,39 @@ func c19GenColour(t *rapid.T, label string, special []uint8) uint8 {
 	}
 }
 
-// c19GenOp returns a generator of operations for a cols x rows grid.
+// c19GenOp returns a generator of operations for a cols x rows grid. Four in
+// ten operations lie entirely inside the grid (when it has cells), the others
+// draw every argument with c19GenArg.
 func c19GenOp(cols, rows uint32, colours []uint8) *rapid.Generator[c19Op] {
 	return rapid.Custom(func(t *rapid.T) c19Op {
 		var op c19Op
+		inside := cols > 0 && rows > 0 && rapid.IntRange(0, 9).Draw(t, "inside") >= 6
+		arg := func(label string, edge, lo, hi uint32) uint32 {
+			if inside {
+				return rapid.Uint32Range(lo, hi).Draw(t, label+"-inside")
+			}
+			return c19GenArg(t, label, edge)
+		}
 		switch rapid.IntRange(0, 9).Draw(t, "kind") {
 		case 0, 1, 2, 3:
 			op.Kind = "write"
 			op.Ch = rapid.Byte().Draw(t, "ch")
 			op.Fg = c19GenColour(t, "fg", colours)
 			op.Bg = c19GenColour(t, "bg", colours)
-			op.X = c19GenArg(t, "x", cols)
-			op.Y = c19GenArg(t, "y", rows)
+			op.X = arg("x", cols, 1, cols)
+			op.Y = arg("y", rows, 1, rows)
 		case 4, 5, 6:
 			op.Kind = "fill"
 			op.Fg = c19GenColour(t, "fg", colours)
 			op.Bg = c19GenColour(t, "bg", colours)
-			op.X = c19GenArg(t, "x", cols)
-			op.Y = c19GenArg(t, "y", rows)
-			op.W = c19GenArg(t, "w", cols)
-			op.H = c19GenArg(t, "h", rows)
+			op.X = arg("x", cols, 1, cols)
+			op.Y = arg("y", rows, 1, rows)
+			op.W = arg("w", cols, 1, cols-op.X+1)
+			op.H = arg("h", rows, 1, rows-op.Y+1)
 		default:
 			op.Kind = "scroll"
 			op.Down = rapid.Bool().Draw(t, "down")
-			op.Lines = c19GenArg(t, "lines", rows)
+			op.Lines = arg("lines", rows, 1, rows)
 		}
 		return op
 	})
